@@ -79,10 +79,12 @@ def check_vector(v):
     if v["kind"] == "table":
         A = v["enc"]
         e = encs[A]
-        alpha = None
-        for b, code in enumerate(v["table"]):
-            form = "str" if b < 128 else "base"
-            o = outcome(lambda: bnp.as_encoded_array(_make([b], form), e).raw().ravel().tolist())
+        alpha_first = next(b for b, c in enumerate(v["table"]) if c == 0 and b < 97)
+        for b, form in [(b, "str" if b < 128 else "base") for b in range(len(v["table"]))] + [(b, "str") for b in range(128, len(v["table"]))]:
+            code = v["table"][b]
+            # a Python str holding a character >= 128 (not a member of any alphabet) between two members must be refused like any foreign character
+            data1 = [b] if not (form == "str" and b >= 128) else [alpha_first, b, alpha_first]
+            o = outcome(lambda: bnp.as_encoded_array(_make(data1, form), e).raw().ravel().tolist())
             n += 1
             exp = ("ok", [code]) if code >= 0 else "raise"
             if (exp == "raise" and o[0] != "err") or (exp != "raise" and o != exp):
